@@ -1,5 +1,5 @@
 """C19: specs/ServiceAPI.tla bound to the protocol service (root package) and the exported helpers."""
-import json, os, re, glob, collections
+import json, os, re, glob, collections, subprocess, threading, time
 import vf
 
 PKG = "."
@@ -54,13 +54,29 @@ def _gen(ctx):
     quick = ctx.tier == "quick"
     # 1. exhaustive check of the model: no request shape has the outcome Panic, every shape the property
     #    demands an error for is answered by nothing but an error, in every reachable state
-    for impl, cfg in (("ImplCurrent", "MC_ServiceAPI.cfg"), ("ImplFixed", "MC_ServiceAPI_fixed.cfg")):
-        r = ctx.tlc("ServiceAPI", cfg, name="mc_" + impl, workers=4, consts={"MaxDev": "1" if quick else "4"}, timeout=1500)
-        if not r.ok:
-            raise vf.Infra("model check of ServiceAPI failed (%s): %s\n%s" % (impl, r.violated, "\n".join(r.out.splitlines()[-30:])))
+    res = {}
+
+    def job(key, *a, **kw):
+        try:
+            res[key] = ctx.tlc(*a, **kw)
+        except Exception as ex:
+            res[key] = ex
+    jobs = [threading.Thread(target=job, args=("mc_" + impl, "ServiceAPI", cfg),
+                             kwargs=dict(name="mc_" + impl, workers=w, consts={"MaxDev": "1" if quick else "4"}, timeout=1500))
+            for impl, cfg, w in (("ImplCurrent", "MC_ServiceAPI.cfg", 2), ("ImplFixed", "MC_ServiceAPI_fixed.cfg", 1))]
     # 2. enumeration of walks x final steps
-    r = ctx.tlc("GenServiceAPI", "Gen_ServiceAPI.cfg", name="gen", workers=1 if quick else 4,
-                consts={"MaxWalk": "2" if quick else "3"}, timeout=1500, heap="8g")
+    jobs.append(threading.Thread(target=job, args=("gen", "GenServiceAPI", "Gen_ServiceAPI.cfg"),
+                                 kwargs=dict(name="gen", workers=1, consts={"MaxWalk": "2" if quick else "3"}, timeout=1500, heap="8g")))
+    for j in jobs:
+        j.start()
+    for j in jobs:
+        j.join()
+    for k, r in res.items():
+        if isinstance(r, Exception):
+            raise r
+        if not r.ok:
+            raise vf.Infra("TLC run %s failed: %s\n%s" % (k, r.violated, "\n".join(r.out.splitlines()[-30:])))
+    r = res["gen"]
     scripts, nh, nw = _merge(r.printed.get("SCRIPT", []), ctx.rng, 25 if quick else 200)
     ctx.extra["bounds"] = {"max_walk": 2 if quick else 3, "histories": nh, "walks": nw, "scripts": len(scripts),
                            "sweeps": sum(1 for s in scripts if s["cfg"]["kind"] == "sweep"),
@@ -93,26 +109,58 @@ def _panic_text(out):
     return " <- ".join(keep)[:1500]
 
 
-def _one(ctx, ov, scripts, name, env, timeout):
+def _build(ctx, ov):
+    """link the driver once (the root test binary takes long to link); every (re)run executes the binary"""
+    out = os.path.join(ctx.scratch, "serviceapi.test")
+    cmd = ["go", "test", "-c", "-tags", "verif", "-vet=off", "-overlay", ov, "-o", out, "."]
+    t0 = time.time()
+    try:
+        p = subprocess.run(cmd, cwd=vf.REPO, env=ctx.go_env(), stdout=subprocess.PIPE, stderr=subprocess.STDOUT,
+                           text=True, errors="replace", timeout=2400)
+    except subprocess.TimeoutExpired:
+        raise vf.Infra("go test -c timeout")
+    vf.log("driver built: rc=%s in %.1fs" % (p.returncode, time.time() - t0))
+    if p.returncode != 0 or not os.path.exists(out):
+        raise vf.Infra("driver does not build against the current tree:\n" + "\n".join(p.stdout.splitlines()[:40]))
+    ctx.extra["build_s"] = round(time.time() - t0, 1)
+    return out
+
+
+def _one(ctx, binary, scripts, name, env, timeout):
     d = ctx.sub("drv_" + name)
     sp, tp, pp = os.path.join(d, "scripts.ndjson"), os.path.join(d, "trace.ndjson"), os.path.join(d, "progress")
     vf.write_ndjson(sp, scripts)
     e = {"VERIF_SCRIPTS": sp, "VERIF_TRACE_OUT": tp, "VERIF_PROGRESS": pp}
     e.update(env or {})
-    rc, out = ctx.go_test(PKG, DRV, ov, env=e, timeout=timeout, name=name)
+    cmd = [binary, "-test.run", DRV, "-test.timeout", "%ds" % timeout, "-test.count", "1"]
+    t0 = time.time()
+    try:
+        p = subprocess.run(cmd, cwd=vf.REPO, env=ctx.go_env(e), stdout=subprocess.PIPE, stderr=subprocess.STDOUT,
+                           text=True, errors="replace", timeout=timeout + 120)
+    except subprocess.TimeoutExpired:
+        raise vf.Infra("driver timeout: " + name)
+    rc, out = p.returncode, p.stdout
+    with open(os.path.join(ctx.scratch, name + ".gotest.out"), "w") as f:
+        f.write(out)
+    vf.log("driver %s: %d scripts, rc=%s in %.1fs" % (name, len(scripts), rc, time.time() - t0))
     if "VERIF-INFRA" in out:
         raise vf.Infra("driver infrastructure error:\n" + "\n".join([l for l in out.splitlines() if "VERIF-INFRA" in l][:5]))
+    if "no tests to run" in out:
+        raise vf.Infra("driver %s not found" % DRV)
     events = vf.read_ndjson(tp) if os.path.exists(tp) else []
-    done = "VERIF-DONE" in out
+    donetxt = open(pp + ".done").read() if os.path.exists(pp + ".done") else ""
+    done = "VERIF-DONE" in donetxt
+    if rc == 0 and not done:
+        raise vf.Infra("driver passed without finishing:\n" + "\n".join(out.splitlines()[-30:]))
     if rc != 0 and done:
-        raise vf.Infra("driver finished but go test failed:\n" + "\n".join(out.splitlines()[-30:]))
-    m = re.search(r"VERIF-DONE scripts=(\d+) services=(\d+) calls=(\d+)", out)
+        raise vf.Infra("driver finished but the test failed:\n" + "\n".join(out.splitlines()[-30:]))
+    m = re.search(r"VERIF-DONE scripts=(\d+) services=(\d+) calls=(\d+)", donetxt)
     if m:
         ctx.extra["services_started"] = ctx.extra.get("services_started", 0) + int(m.group(2))
     return events, done, out, _read_progress(pp)
 
 
-def _drive(ctx, ov, scripts, timeout=2400):
+def _drive(ctx, binary, scripts, timeout=2400):
     """Run all scripts.  A driver that dies is a violation candidate: the in-flight calls are re-run
     alone, first under recover (a recovered panic is then an ordinary recorded event), then through
     gRPC; a death that reproduces is attributed to the call as a `crash` event; one that cannot be
@@ -124,7 +172,7 @@ def _drive(ctx, ov, scripts, timeout=2400):
     while todo:
         rnd += 1
         env = {"VERIF_SKIP": ",".join(sorted(skip))}
-        events, done, out, prog = _one(ctx, ov, todo, "run%d" % rnd, env, timeout)
+        events, done, out, prog = _one(ctx, binary, todo, "run%d" % rnd, env, timeout)
         for bid, evs in vf.split_traces(events):
             blocks[bid] = evs
         if done:
@@ -142,7 +190,7 @@ def _drive(ctx, ov, scripts, timeout=2400):
             for mode in (["off"] if c["via"] == "direct" else ["off", "all"]):
                 # cut the script after the suspect step so that the re-run is short
                 cut = dict(sc, steps=sc["steps"][:c["step"] + 1])
-                ev2, done2, out2, prog2 = _one(ctx, ov, [cut], "attr%d_%s_%s" % (rnd, label.replace(":", "_"), mode),
+                ev2, done2, out2, prog2 = _one(ctx, binary, [cut], "attr%d_%s_%s" % (rnd, label.replace(":", "_"), mode),
                                                {"VERIF_WORKERS": "1", "VERIF_GRPC": mode, "VERIF_SKIP": ",".join(sorted(skip))}, 900)
                 if done2:
                     evs = [e for e in ev2 if e.get("ev") != "reset"]
@@ -234,32 +282,59 @@ def _nontrivial(e):
 
 def run(ctx, replay=None):
     ov = ctx.overlay({PKG: FILES})
-    if replay:
-        rp = json.load(open(replay))
-        scripts = [rp["script"]]
-    else:
-        scripts = _gen(ctx)
+    built = {}
+
+    def bg():
+        try:
+            built["bin"] = _build(ctx, ov)
+        except Exception as ex:      # re-raised in the main thread
+            built["err"] = ex
+    th = threading.Thread(target=bg)
+    th.start()
+    try:
+        if replay:
+            rp = json.load(open(replay))
+            scripts = [rp["script"]]
+        else:
+            scripts = _gen(ctx)
+    finally:
+        th.join()
+    if "err" in built:
+        raise built["err"]
+    binary = built["bin"]
     if not scripts:
         raise vf.Infra("no scripts generated")
     byid = {s["id"]: s for s in scripts}
-    blocks, deaths = _drive(ctx, ov, scripts)
+    blocks, deaths = _drive(ctx, binary, scripts)
     missing = [s["id"] for s in scripts if s["id"] not in blocks]
     if missing and "incomplete" not in ctx.extra:
         raise vf.Infra("driver did not record scripts %s" % missing[:10])
     order = [(s["id"], blocks[s["id"]]) for s in scripts if s["id"] in blocks]
     allev = [e for _, evs in order for e in evs]
-    # ---- the verdict: the property monitor, evaluated by TLC
+    # ---- the verdict: the property monitor, evaluated by TLC (the conformance pass runs beside it)
     flat, _ = _flatten(order)
     tp = os.path.join(ctx.sub("val_mon"), "all.ndjson")
     vf.write_ndjson(tp, flat)
-    ok, info = ctx.validate_trace(MON[0], MON[1], tp, name="mon_accept", timeout=1500)
-    bad = []
-    if not ok:
-        if "high" not in info:
-            raise vf.Infra("monitor broke on the observed trace: %s" % info)
-        bad = _collect(ctx, MON, order, "mon_collect", "BAD")
-        if not bad:
-            raise vf.Infra("monitor rejected the trace but listed no line: %s" % info)
+    side = {}
+
+    def conf_job():
+        try:
+            side["drift"] = _collect(ctx, CONF, order, "conf_collect", "DRIFT", strict=True)
+        except Exception as ex:
+            side["err"] = ex
+    th = threading.Thread(target=conf_job)
+    th.start()
+    try:
+        ok, info = ctx.validate_trace(MON[0], MON[1], tp, name="mon_accept", timeout=1500)
+        bad = []
+        if not ok:
+            if "high" not in info:
+                raise vf.Infra("monitor broke on the observed trace: %s" % info)
+            bad = _collect(ctx, MON, order, "mon_collect", "BAD")
+            if not bad:
+                raise vf.Infra("monitor rejected the trace but listed no line: %s" % info)
+    finally:
+        th.join()
     badblocks = {b["id"] for b in bad}
     findings = collections.OrderedDict()
     for b in bad:
@@ -285,10 +360,11 @@ def run(ctx, replay=None):
     ctx.extra["findings"] = {k: len(v) for k, v in findings.items()}
     good = [(bid, evs) for bid, evs in order if bid not in badblocks]
     ctx.traces_validated += len(good)
-    # ---- conformance with the full model (drift only).  Lines the monitor rejected are left out.
+    # ---- conformance with the full model (drift only).  Lines the monitor rejected are not counted again.
+    if "err" in side:
+        raise side["err"]
     badat = {(b["id"], b["at"]) for b in bad}
-    clean = [(bid, [e for j, e in enumerate(evs) if (bid, j) not in badat]) for bid, evs in order]
-    drift = _collect(ctx, CONF, clean, "conf_collect", "DRIFT", strict=True)
+    drift = [d for d in side["drift"] if (d["id"], d["at"]) not in badat]
     dkeys = collections.OrderedDict()
     for dline in drift:
         l = dline["line"]
